@@ -4,10 +4,13 @@ import StoneVerif.Model.Order
 iteration order (`pi`) the harness supplies.
 
 * `decl.order.callers`  {"pi": [null | "caller", ..], "cls": "U", "members": ["caller", ..]}
-      -> {"loop": [null | str ..], "struct_tables": [..], "union_tables": [..], "tagmaps": [line ..], "tagmaps_sorted": [..]}
+      -> {"loop": [null | str ..], "loop_str": [..] (the loop before the repair: `key=str`), "struct_tables": [..],
+          "union_tables": [..], "tagmaps": [line ..], "tagmaps_sorted": [..]}
 * `decl.order.procs`    {"ns": "a", "kind": "prim|composite|subtypes|list|map", "inner": [[tyNs, tyName, code] ..],
-                         "direct": [[owner, tyNs, tyName, inst] ..], "rem": [..], "extras": [[tyNs, tyName, inst] ..]}
-      -> {"procs": [[tyNs, tyName, code] ..], "emit": [[class, code] ..]}
+                         "direct": [[owner, tyNs, tyName, inst, annNs, annName] ..], "rem": [..],
+                         "extras": [[tyNs, tyName, inst, annNs, annName] ..]}
+      -> {"procs": [[tyNs, tyName, code] ..], "emit": [[class, code] ..], "emit_by_name": [..] (the sort before the
+          repair: by annotation-type name only)}
 * `decl.order.imports`  {"self": "a", "package": "pkg", "st": [[ns, [alias, dataType, annotation, annotationType]] ..],
                          "pi": [ns ..], "flags": [m, a, t]} -> {"imported": [ns ..], "lines": [..]}
 * `decl.order.sort`     {"pi": [str ..]} -> {"sorted": [..], "typing": [..], "adhoc": [..]}
@@ -39,13 +42,13 @@ def strs (j : Json) : Except String (List String) := do
 
 def annOf (l : List String) : Except String Ann :=
   match l with
-  | [a, b, c] => pure ⟨a, b, c⟩
-  | _ => throw "annotation: [tyNs, tyName, inst] expected"
+  | [a, b, c, d, e] => pure ⟨a, b, c, d, e⟩
+  | _ => throw "annotation: [tyNs, tyName, inst, annNs, annName] expected"
 
 def ownedAnnOf (l : List String) : Except String (String × Ann) :=
   match l with
-  | [o, a, b, c] => pure (o, ⟨a, b, c⟩)
-  | _ => throw "owned annotation: [owner, tyNs, tyName, inst] expected"
+  | [o, a, b, c, d, e] => pure (o, ⟨a, b, c, d, e⟩)
+  | _ => throw "owned annotation: [owner, tyNs, tyName, inst, annNs, annName] expected"
 
 def procOf (l : List String) : Except String Proc :=
   match l with
@@ -66,10 +69,11 @@ def rows (j : Json) (k : String) : Except String (List (List String)) := do
 
 def keyClassName : KeyClass → String
   | .strings => "strings"
-  | .callerStr => "callerStr"
+  | .callerKey => "callerKey"
   | .nsName => "nsName"
   | .typeName => "typeName"
-  | .annTypeName => "annTypeName"
+  | .annTypeKey => "annTypeKey"
+  | .annNsName => "annNsName"
 
 def site4 (r : String × String × Nat × String) : Json :=
   Json.arr #[Json.str r.1, Json.str r.2.1, Json.num r.2.2.1, Json.str r.2.2.2]
@@ -101,6 +105,7 @@ def handle (op : String) (j : Json) : Except String Json := do
     let cls ← jstr j "cls"
     let members ← strList j "members"
     pure <| ok [("loop", Json.arr ((callerLoop pi).map callerToJson).toArray),
+                ("loop_str", Json.arr ((callerLoopStr pi).map callerToJson).toArray),
                 ("struct_tables", jstrs (structTableNames pi)),
                 ("union_tables", jstrs (unionTableNames pi)),
                 ("tagmaps", jstrs (tagmapsLine cls members)),
@@ -114,7 +119,8 @@ def handle (op : String) (j : Json) : Except String Json := do
     let extras ← (← rows j "extras").mapM annOf
     let ps := procsOf ns kind inner direct rem extras
     pure <| ok [("procs", Json.arr (ps.map fun p => jstrs [p.tyNs, p.tyName, p.code]).toArray),
-                ("emit", Json.arr ((emitProcs ns ps).map fun e => jstrs [e.1, e.2]).toArray)]
+                ("emit", Json.arr ((emitProcs ns ps).map fun e => jstrs [e.1, e.2]).toArray),
+                ("emit_by_name", Json.arr ((emitProcsByName ns ps).map fun e => jstrs [e.1, e.2]).toArray)]
   | "decl.order.imports" =>
     let self ← jstr j "self"
     let package ← jstr j "package"
